@@ -267,6 +267,9 @@ def configs(tier):
     add("callable/solve", solve_callable)
     add("callable/symeig", symeig_callable)
     add("callable/solve_ivp", ivp_callable)
+    from harness.c08 import option_flow
+    add("callable/solve_ivp/bck_options", option_flow, case="bck_options")
+    add("callable/solve_ivp/sequence", option_flow, case="sequence")
     add("callable/quad", quad_callable)
     add("callable/mcquad", mcquad_callable)
     add("callable/interp_squad", interp_squad_callable)
